@@ -26,6 +26,7 @@ RULE = (
     "same outcome class, same error attributes (node id / child id, and for unsupported messages the message, not the version text), same "
     "yielded fields, same multiset of writes (time replies compared without the clock value), same registry snapshot. Enumerated part: every internal and stream type of the older table x a payload pool x both ack flags on a fixed registry, for all pairs. Non-trivial = the "
     "history touches >= 3 distinct internal types, or a command was parked for a sleeping node; distinct = distinct case JSON."
+    ' Round 5: cases run under generated time zones and compare the time replies of both versions.'
 )
 ASSUMPTIONS = [
     "gateway.protocol_version = v (public setter) pins each gateway",
